@@ -70,8 +70,47 @@ def check_program(node, rec=None):
                  size=progs.size(node))
 
 
+PARTNERS = ['plain', 'reshuffle', 'prefetch1', 'local_shuffle', 'cycle_free_map']
+
+
+def check_zip_lengths(case):
+    """zip / key-less combinations of inputs with DIFFERENT lengths, one of them sized but not indexable: either the
+    library refuses to build it, or what it builds reports the length it yields."""
+    import lazy_dataset
+    import numpy as np
+    n1, n2, kind, first = case['n1'], case['n2'], case['partner'], case['first']
+    a = lazy_dataset.new(list(range(n1)))
+    b = lazy_dataset.new(list(range(100, 100 + n2)))
+    if kind == 'reshuffle':
+        b = b.shuffle(True, rng=np.random.RandomState(1))
+    elif kind == 'prefetch1':
+        b = b.prefetch(1, 2)
+    elif kind == 'local_shuffle':
+        b = b.shuffle(True, rng=np.random.RandomState(1), buffer_size=2)
+    elif kind == 'cycle_free_map':
+        b = b.map(lambda x: x)
+    parts = [a, b] if first else [b, a]
+    desc = f'zip of lengths {[len(p) for p in parts]} (second input kind: {kind}, indexable: {[p.indexable for p in parts]})'
+    try:
+        z = parts[0].zip(parts[1])
+    except Exception:
+        return 'refused'
+    try:
+        ln = len(z)
+    except Exception:
+        return 'no-length'
+    got, exc, _ = observe.take(lambda: z, 50)
+    if exc is None and ln != len(got):
+        raise Violation('len-wrong|zip-unequal', f'{desc}\nwas accepted; len() == {ln} but iteration yields {len(got)} '
+                                                 f'examples: {got}')
+    return 'accepted'
+
+
 def replay(case):
     progcheck.setup_process()
+    if 'partner' in case:
+        check_zip_lengths(case)
+        return
     check_program(case['ast'])
 
 
@@ -81,5 +120,21 @@ def run_shard(tier, idx, nshards, rec, known):
         case, sig, detail = out.violation
         out.violation = ({'ast': case, 'program': progs.show(case)}, sig, detail)
         return [out]
+    if idx == 0:
+        from ..common import Outcome
+        oz = Outcome()
+        for n1 in range(0, 5):
+            for n2 in range(0, 5):
+                for kind in PARTNERS:
+                    for first in (True, False):
+                        case = {'n1': n1, 'n2': n2, 'partner': kind, 'first': first}
+                        try:
+                            res = check_zip_lengths(case)
+                        except Violation as v:
+                            if known.match(v.sig):
+                                continue
+                            oz.violation = (case, v.sig, v.detail)
+                            return [out, oz]
+                        rec.case(case, n1 != n2, ['zip-lengths', 'zip:' + res, 'partner:' + kind], size=n1 + n2)
     # bounded-exhaustive part: every chain of <= ENUM_DEPTH[tier] stage templates over every small source
     return [out, progcheck.run_enum(lambda node: check_program(node, rec), rec, known, ENUM_DEPTH[tier], idx, nshards)]
